@@ -27,6 +27,18 @@ impl<T> FftCache<T> {
         }
         .map(Arc::clone)
     }
+    #[cfg(rustfft_verif)]
+    #[allow(unused)]
+    pub fn verif_keys(&self) -> Vec<(usize, FftDirection)> {
+        let mut keys: Vec<(usize, FftDirection)> = self
+            .forward_cache
+            .keys()
+            .map(|k| (*k, FftDirection::Forward))
+            .chain(self.inverse_cache.keys().map(|k| (*k, FftDirection::Inverse)))
+            .collect();
+        keys.sort_by_key(|(len, dir)| (*len, *dir == FftDirection::Inverse));
+        keys
+    }
     pub fn insert(&mut self, fft: &Arc<dyn Fft<T>>) {
         let cloned = Arc::clone(fft);
         let len = cloned.len();
